@@ -103,13 +103,21 @@ def cmd_verify(i, at='HEAD'):
         shutil.rmtree(wt, ignore_errors=True)
 
 
-def cmd_detect(i, props, tier='quick', runs=None):
+def cmd_detect(i, props, tier='quick', runs=None, at=None):
     d = os.path.join(SEEDED, i)
     m = load_meta(i)
     props = props or [m['property']]
+    at = at or m.get('detect_at')        # a change written for an earlier /repo commit (a later fix: commit touched the same lines)
     scratch = tempfile.mkdtemp(prefix='seedrepo-', dir='/dev/shm')
     try:
-        shutil.copytree('/repo/stix2', os.path.join(scratch, 'stix2'), ignore=shutil.ignore_patterns('__pycache__', 'test'))
+        if at:
+            r = subprocess.run('git -C /repo archive %s stix2 | tar -x -C %s' % (at, scratch), shell=True, capture_output=True, text=True)
+            if r.returncode:
+                print('cannot extract', at, r.stderr)
+                return 2
+            shutil.rmtree(os.path.join(scratch, 'stix2', 'test'), ignore_errors=True)
+        else:
+            shutil.copytree('/repo/stix2', os.path.join(scratch, 'stix2'), ignore=shutil.ignore_patterns('__pycache__', 'test'))
         diff = open(os.path.join(d, 'patch.diff')).read()
         # the scratch copy has no tests: drop hunks for files that are not there
         ap = subprocess.run(['patch', '-p1', '-s', '-f', '-d', scratch], input=diff, text=True, capture_output=True)
